@@ -42,6 +42,13 @@ pub struct Scenario {
     pub expect: String,
     #[serde(default)]
     pub corruptions: Vec<Corruption>,
+    /// the statement of Stark.tla this scenario was made from, with the model's derived quantities
+    #[serde(default)]
+    pub stmt: Option<Value>,
+    #[serde(default)]
+    pub ccols: usize,
+    #[serde(default)]
+    pub layers: usize,
 }
 
 #[derive(Deserialize, Clone, Debug)]
@@ -285,6 +292,99 @@ impl Job for Sound {
     }
 }
 
+// ---------------------------------------------------------------------------------------------------------
+// C04: transcript of prover and verifier through the recording coin
+// ---------------------------------------------------------------------------------------------------------
+fn expected_messages<B: SField, E: winter_math::FieldElement<BaseField = B>, H: ElementHasher<BaseField = B>>(
+    proof: &Proof,
+    inputs: &ShapeInputs<B>,
+    ccols: usize,
+    layers: usize,
+) -> Result<Vec<Vec<u8>>, String> {
+    use winter_crypto::Digest;
+    use winter_math::ToElements;
+    use winter_utils::Serializable;
+    let mut msgs: Vec<Vec<u8>> = vec![];
+    let mut seed: Vec<B> = ToElements::<B>::to_elements(&proof.context);
+    seed.append(&mut inputs.to_elements());
+    let mut sb = Vec::new();
+    for e in &seed {
+        e.write_into(&mut sb);
+    }
+    msgs.push(sb);
+    let (troots, croot, froots) = proof.commitments.clone().parse::<H>(1, layers).map_err(|e| format!("commitments: {e}"))?;
+    for r in troots {
+        msgs.push(r.as_bytes().to_vec());
+    }
+    msgs.push(croot.as_bytes().to_vec());
+    let (frame, evals) = proof.ood_frame.clone().parse::<E>(inputs.shape.width, 0, ccols).map_err(|e| format!("ood frame: {e}"))?;
+    msgs.push(frame.hash::<H>().as_bytes().to_vec());
+    msgs.push(H::hash_elements(&evals).as_bytes().to_vec());
+    for r in froots {
+        msgs.push(r.as_bytes().to_vec());
+    }
+    Ok(msgs)
+}
+
+pub struct Transcript {
+    pub out: Vec<String>,
+}
+impl Job for Transcript {
+    fn run<B: SField, H: ElementHasher<BaseField = B> + Sync + Send>(&mut self, sc: &Scenario) -> Value {
+        use crate::rec::{clog_take, RecCoin};
+        use winter_math::fields::{CubeExtension, QuadExtension};
+        let b = build::<B>(sc);
+        clog_take();
+        let proof = match prove_with::<B, H, RecCoin<H>>(sc, b.cols.clone(), None) {
+            Ok(p) => p,
+            Err(e) => return json!({"id": sc.id, "prove": e}),
+        };
+        let plog = clog_take();
+        let bytes = proof.to_bytes();
+        let v = verify_with::<B, H, RecCoin<H>>(Proof::from_bytes(&bytes).unwrap(), b.inputs.clone());
+        let vlog = clog_take();
+        let st = sc.stmt.clone().unwrap_or(json!({}));
+        let ccols = sc.ccols;
+        let layers = sc.layers;
+        let exp = match sc.ext {
+            1 => expected_messages::<B, B, H>(&proof, &b.inputs, ccols, layers),
+            2 => expected_messages::<B, QuadExtension<B>, H>(&proof, &b.inputs, ccols, layers),
+            _ => expected_messages::<B, CubeExtension<B>, H>(&proof, &b.inputs, ccols, layers),
+        };
+        let exp = match exp {
+            Ok(e) => e,
+            Err(e) => return json!({"id": sc.id, "prove": "ok", "verify": res_json(&v), "expected": e}),
+        };
+        self.out.push(json!({"ev": "begin", "id": sc.id, "t": st, "expected": exp, "nonce": proof.pow_nonce.to_le_bytes().to_vec(),
+            "lde": proof.context.lde_domain_size(), "unique": proof.num_unique_queries}).to_string());
+        for (role, log) in [("P", &plog), ("V", &vlog)] {
+            let mut nclz = 0usize;
+            for (i, c) in log.iter().enumerate() {
+                // the prover's nonce search: keep only the last (successful) proof-of-work evaluation
+                if c.op == "clz" && role == "P" {
+                    nclz += 1;
+                    let last = log.get(i + 1).map(|n| n.op != "clz").unwrap_or(true);
+                    if !last {
+                        continue;
+                    }
+                    let mut j = c.to_json();
+                    j["ev"] = json!("coin");
+                    j["role"] = json!(role);
+                    j["tries"] = json!(nclz);
+                    self.out.push(j.to_string());
+                    continue;
+                }
+                let mut j = c.to_json();
+                j["ev"] = json!("coin");
+                j["role"] = json!(role);
+                self.out.push(j.to_string());
+            }
+        }
+        self.out.push(json!({"ev": "end", "id": sc.id, "verdict": res_json(&v)}).to_string());
+        json!({"id": sc.id, "prove": "ok", "verify": res_json(&v), "pevents": plog.len(), "vevents": vlog.len()})
+    }
+}
+
 pub fn main(args: &[String]) -> i32 {
     use std::io::BufRead;
     let mode = args.get(0).map(|s| s.as_str()).unwrap_or("");
@@ -294,8 +394,10 @@ pub fn main(args: &[String]) -> i32 {
     let out = std::io::stdout();
     use std::io::Write;
     let mut out = out.lock();
+    let mut tr = Transcript { out: vec![] };
     for sc in &scs {
         let v = match mode {
+            "transcript" => dispatch(&mut tr, sc),
             "complete" => dispatch(&mut Complete, sc),
             "sound" => dispatch(&mut Sound, sc),
             m => {
@@ -304,6 +406,9 @@ pub fn main(args: &[String]) -> i32 {
             },
         };
         writeln!(out, "{}", v).unwrap();
+    }
+    if let Some(p) = crate::common::arg_value(args, "--trace") {
+        std::fs::write(p, tr.out.join("\n") + "\n").unwrap();
     }
     0
 }
